@@ -1,14 +1,18 @@
 #!/bin/sh
-# Builds the whole framework from files on disk only (offline): factgen, the Lean library with all
-# property theorems, the core-only driver executable, and the harness test binary (-tags verif).
+# Builds the whole framework from files on disk only (offline): factgen, the Go->Lean translator, the Lean library with
+# all property theorems, the core-only driver executable, and the harness test binary (-tags verif).
+# VERIF_HOME / VERIF_REPO select a copy (sweeps beside ongoing work); the registered commands use /verif and /repo.
 set -e
-cd /verif
+V=${VERIF_HOME:-/verif}
+REPO=${VERIF_REPO:-/repo}
+cd "$V"
 export GOFLAGS=-mod=mod GOPROXY=off GOSUMDB=off GOTOOLCHAIN=local CGO_ENABLED=0
 mkdir -p .build evidence
-(cd factgen && go1.26.8 build -o /verif/.build/factgen . && /verif/.build/factgen /repo /verif/lean/PsaDhcp/Generated/Facts.lean)
-(cd xlate && go1.26.8 build -o /verif/.build/xlate . && /verif/.build/xlate /repo /verif/lean/PsaDhcp/Generated/Code.lean /verif/xlate/hints.json)
+(cd factgen && go1.26.8 build -o "$V/.build/factgen" . && "$V/.build/factgen" "$REPO" "$V/lean/PsaDhcp/Generated/Facts.lean")
+(cd xlate && go1.26.8 build -o "$V/.build/xlate" . && "$V/.build/xlate" "$REPO" "$V/lean/PsaDhcp/Generated/Code.lean" "$V/xlate/hints.json")
 (cd lean && lake build PsaDhcp PsaDhcp.Expect driver)
-cp /repo/go.sum harness/go.sum
-(cd harness && go1.26.8 test -c -tags verif -o /verif/.build/hx.test .)
-(cd /repo && go1.26.8 build -o /verif/.build/psa-dhcpc cmd/psa-dhcpc.go)
+cp "$REPO/go.sum" harness/go.sum
+if [ "$V" != /verif ]; then sed -i "s#^replace git.sr.ht/~adrian-blx/psa-dhcp => .*#replace git.sr.ht/~adrian-blx/psa-dhcp => $REPO#" harness/go.mod; fi
+(cd harness && go1.26.8 test -c -tags verif -o "$V/.build/hx.test" .)
+(cd "$REPO" && go1.26.8 build -o "$V/.build/psa-dhcpc" cmd/psa-dhcpc.go)
 echo setup-ok
